@@ -911,8 +911,11 @@ package meta
 //@   assumed
 //@   modifies nothing
 //@ func (DatabaseInfo).RetentionPolicy
-//@   assumed
+//@   props C17
 //@   modifies nothing
+//@   loop 1 invariant no_match_so_far: all(k, 0, rangeindex + 1, (name != "" ==> di.RetentionPolicies[k].Name != name) && (name == "" ==> di.RetentionPolicies[k].Name != di.DefaultRetentionPolicy))
+//@   ensures the_named_policy_of_this_database: result != nil ==> is_elem_of(result, di.RetentionPolicies) && (name != "" ==> result.Name == name) && (name == "" ==> result.Name == di.DefaultRetentionPolicy)
+//@   ensures nil_only_if_absent: result == nil && (name != "" || di.DefaultRetentionPolicy != "") ==> all(k, 0, len(di.RetentionPolicies), (name != "" ==> di.RetentionPolicies[k].Name != name) && (name == "" ==> di.RetentionPolicies[k].Name != di.DefaultRetentionPolicy))
 
 // ---- C06: a data node is created only under a TCP address no data node has yet ----
 // The node id is taken from a meta node with the same TCP address (a combined meta + data process) or freshly
